@@ -71,11 +71,11 @@ def run_into(prog, x, ap, regs):
         elif k == 'set2':
             regs[ins[1]][ins[2], ins[3]] = operand(regs, ins[4])
         elif k == 'getsl':
-            idx = tuple(Ellipsis if it == '...' else (slice(None) if it == ':' else (slice(it[0], it[1]) if isinstance(it, list) else it)) for it in ins[2])
+            idx = tuple(Ellipsis if it == '...' else (slice(None) if it == ':' else (slice(*it) if isinstance(it, list) else it)) for it in ins[2])
             regs.append(regs[ins[1]][idx if len(idx) != 1 else idx[0]])
         elif k == 'setsl':
             # assignment through a general basic index; the right-hand side may be broadcast into the target
-            idx = tuple(Ellipsis if it == '...' else (slice(None) if it == ':' else (slice(it[0], it[1]) if isinstance(it, list) else it)) for it in ins[2])
+            idx = tuple(Ellipsis if it == '...' else (slice(None) if it == ':' else (slice(*it) if isinstance(it, list) else it)) for it in ins[2])
             regs[ins[1]][idx if len(idx) != 1 else idx[0]] = operand(regs, ins[3])
         elif k == 'get':
             regs.append(regs[ins[1]][ins[2]])
@@ -195,13 +195,19 @@ class Gen:
             self.emit(['set', buf, k, ['r', self.pick_scalar()]])
         # re-read, combine, overwrite (the pattern of test_buffered_operations)
         for _ in range(self.rng.randint(1, 3)):
-            k1 = self.rng.randrange(n); k2 = self.rng.randrange(n)
+            k1 = self.rng.randrange(n); k2 = k1 if self.rng.random() < 0.5 else self.rng.randrange(n)     # read-modify-write of one cell
             g1 = self.emit(['get', buf, k1], 's')
             other = ['r', self.pick_scalar()] if self.rng.random() < 0.7 else self.const()
             v = self.emit(['bin', self.rng.choice(['mul', 'add', 'mul']), ['r', g1], other], 's')
             if self.rng.random() < 0.3:
                 v = self.emit(['un', self.rng.choice(['square'] if self.rational else ['sin', 'cos', 'square']), v], 's')
             self.emit(['set', buf, k2, ['r', v]])
+        if not self.rational and not self.scalar_only and self.rng.random() < 0.5:
+            # read-modify-write of the WHOLE buffer through a slice index: y[:] = y * c + y * y
+            t1 = self.emit(['bin', 'mul', ['r', buf], ['c', self.rng.choice([0.5, -0.75, 1.25])]], ('v', n))
+            t2 = self.emit(['bin', 'mul', ['r', buf], ['r', buf]], ('v', n))
+            t3 = self.emit(['bin', 'add', ['r', t1], ['r', t2]], ('v', n))
+            self.emit(['setsl', buf, [':'], ['r', t3]])
         extra = None
         if not self.rational and self.rng.random() < 0.4:
             # accumulator started from the integer 0 (builtin sum(), acc = 0): acc = 0 + view must be a NEW value, not the view itself,
@@ -340,7 +346,20 @@ class Gen:
             return v
         def carr(*shape):
             return numpy.array([self.rng.choice([0.5, -1.0, 2.0, 1.5, -0.25]) for _ in range(int(numpy.prod(shape)))]).reshape(shape).tolist()
-        kind = self.rng.choice(['mv', 'vm', 'mm', 'mc', 'cm', 'mcv', 'cvm', 'viewreshape', 'viewreshape', 'fft', 'fft'])
+        kind = self.rng.choice(['mv', 'vm', 'mm', 'mc', 'cm', 'mcv', 'cvm', 'viewreshape', 'viewreshape', 'fft', 'fft', 'viewsum', 'viewsum'])
+        if kind == 'viewsum':
+            # reductions applied DIRECTLY to views whose axes cannot be merged (column block, transpose, strided rows, reversed rows):
+            # the adjoint has to be written through the view into the parent
+            views = [['getsl', M, [':', [1, None]]], ['T', M], ['getsl', M, [[0, None, 2]]], ['getsl', M, [[None, None, -1]]], ['getsl', M, [':', [None, None, -1]]]]
+            acc = None
+            for vi in self.rng.sample(views, 2):
+                vw = self.emit(vi, 'view')
+                red = self.emit(['sum', vw], 's') if self.rng.random() < 0.7 else self.emit(['prod', self.emit(['bin', 'add', ['r', vw], ['c', 1.5]], 'view')], 's')
+                red = self.emit(['bin', 'mul', ['r', red], ['c', self.rng.choice([0.5, -1.0, 2.0])]], 's')
+                acc = red if acc is None else self.emit(['bin', 'add', ['r', acc], ['r', red]], 's')
+            w2 = self.emit(['bin', 'mul', ['r', M], ['a', carr(r_, c_)]], ('m', r_, c_))
+            s2 = self.emit(['sum', w2], 's')
+            return self.emit(['bin', 'add', ['r', acc], ['r', s2]], 's')
         if kind == 'viewreshape':
             # reshape / transpose of VIEWS (a row, a block of rows, a reshape of a reshape): the adjoint must flow back into the parent
             if self.rng.random() < 0.5:
@@ -591,7 +610,7 @@ def kernel_programs(rng, ap, reps=2):
                 l = ['r', a] if form[0] == 'r' else ['c', 1.75]
                 r_ = ['r', den] if form[1] == 'r' else ['c', -2.5]
                 out.append(('bin:%s:%s' % (op, form), finish(g, g.emit(['bin', op, l, r_], 's'))))
-    for name, k in [('buffer_block', 3), ('vector_block', 8), ('matrix_block', 14), ('rect_block', 10), ('fact_block', 8), ('bcast_block', 6)]:
+    for name, k in [('buffer_block', 8), ('vector_block', 8), ('matrix_block', 14), ('rect_block', 10), ('fact_block', 8), ('bcast_block', 6)]:
         for _ in range(k * reps // 2 if reps > 1 else k):
             g, a = start(N=rng.randint(2, 4))
             out.append((name, finish(g, getattr(g, name)())))
